@@ -91,3 +91,91 @@ Proof.
     { rewrite Hs. apply RL. lia. }
     rewrite R by lia. reflexivity.
 Qed.
+
+(* ------------------------------------------------------------------ *)
+(* consequences of the recurrence, for any well-formed score matrix   *)
+
+Fixpoint csum (scores : list (list N)) (rs : list diff_result) : N :=
+  match rs with
+  | [] => 0
+  | Common i j :: r => score_at scores i j + csum scores r
+  | _ :: r => csum scores r
+  end.
+
+Section DP.
+  Variables (m : nat) (scores : list (list N)).
+  Hypothesis HF : Forall (fun r => length r = m) scores.
+  Local Notation dp := (dp_table m scores).
+  Local Notation rows := (length scores).
+
+  Lemma dp_mono_i : forall i j, (i < rows)%nat -> (j <= m)%nat ->
+    dp_at dp i j <= dp_at dp (S i) j.
+  Proof.
+    destruct (dp_table_rec m scores HF) as (Z0 & Z1 & R). intros i [|j] Hi Hj.
+    - rewrite !Z1 by lia. lia.
+    - rewrite R by lia. unfold dpF. destruct (0 <? _); lia.
+  Qed.
+
+  Lemma dp_mono_j : forall i j, (i <= rows)%nat -> (j < m)%nat ->
+    dp_at dp i j <= dp_at dp i (S j).
+  Proof.
+    destruct (dp_table_rec m scores HF) as (Z0 & Z1 & R). intros [|i] j Hi Hj.
+    - rewrite !Z0. lia.
+    - rewrite R by lia. unfold dpF. destruct (0 <? _); lia.
+  Qed.
+
+  Lemma dp_diag : forall i j, (i < rows)%nat -> (j < m)%nat ->
+    dp_at dp i j + score_at scores i j <= dp_at dp (S i) (S j).
+  Proof.
+    intros i j Hi Hj.
+    pose proof (dp_mono_j i j ltac:(lia) Hj) as Mj.
+    destruct (dp_table_rec m scores HF) as (Z0 & Z1 & R).
+    rewrite R by lia. unfold dpF.
+    destruct (N.ltb_spec 0 (score_at scores i j)); lia.
+  Qed.
+
+  (* order-preserving matchings of the suffixes starting at (i,j), with their value *)
+  Inductive reachb : nat -> nat -> N -> Prop :=
+  | rb_end : reachb rows m 0
+  | rb_del : forall i j v, (i < rows)%nat -> (j <= m)%nat -> reachb (S i) j v -> reachb i j v
+  | rb_ins : forall i j v, (i <= rows)%nat -> (j < m)%nat -> reachb i (S j) v -> reachb i j v
+  | rb_com : forall i j v, (i < rows)%nat -> (j < m)%nat -> reachb (S i) (S j) v ->
+             reachb i j (v + score_at scores i j).
+
+  Lemma dp_ge_reachb : forall i j v, reachb i j v -> dp_at dp i j + v <= dp_at dp rows m.
+  Proof.
+    intros i j v H. induction H as [|i j v Hi Hj H IH|i j v Hi Hj H IH|i j v Hi Hj H IH].
+    - lia.
+    - pose proof (dp_mono_i i j Hi Hj). lia.
+    - pose proof (dp_mono_j i j Hi Hj). lia.
+    - pose proof (dp_diag i j Hi Hj). lia.
+  Qed.
+
+  (* the backtrack realises the table value *)
+  Lemma backtrack_csum : forall fuel i j acc,
+    (i <= rows)%nat -> (j <= m)%nat -> (i + j <= fuel)%nat ->
+    csum scores (backtrack fuel scores dp i j acc) = dp_at dp i j + csum scores acc.
+  Proof.
+    destruct (dp_table_rec m scores HF) as (Z0 & Z1 & R).
+    induction fuel as [|fuel IH]; intros i j acc Hi Hj Hf.
+    - replace i with O by lia. replace j with O by lia. cbn [backtrack]. rewrite Z0. lia.
+    - cbn [backtrack]. destruct i as [|i], j as [|j].
+      + rewrite Z0. lia.
+      + rewrite IH by lia. cbn [csum]. rewrite !Z0. lia.
+      + rewrite IH by lia. cbn [csum]. rewrite !Z1 by lia. lia.
+      + specialize (R i j ltac:(lia) ltac:(lia)). unfold dpF in R.
+        destruct (N.ltb_spec 0 (score_at scores i j)) as [Hs|Hs]; cbn [andb].
+        * destruct (N.eqb_spec (dp_at dp (S i) (S j)) (dp_at dp i j + score_at scores i j))
+            as [E|E].
+          -- rewrite IH by lia. cbn [csum]. lia.
+          -- destruct (N.ltb_spec (dp_at dp (S i) j) (dp_at dp i (S j)));
+               rewrite IH by lia; cbn [csum]; lia.
+        * destruct (N.ltb_spec (dp_at dp (S i) j) (dp_at dp i (S j)));
+            rewrite IH by lia; cbn [csum]; lia.
+  Qed.
+
+  Lemma lcs_csum : csum scores (lcs_by_score rows m scores) = dp_at dp rows m.
+  Proof.
+    unfold lcs_by_score. rewrite backtrack_csum by lia. cbn [csum]. lia.
+  Qed.
+End DP.
